@@ -12,7 +12,7 @@ ASSUMPTIONS = ['monitors are initially empty; SetGenerationMonitor is exercised 
                'costs are finite (a cost returning inf is run as a separate class for DE2\'s documented counting shortcut)',
                'in-process map only']
 CLASSES = {'programs': {'quick': 6400, 'thorough': 32000}, 'de2_inf_cost': {'quick': 192, 'thorough': 960}, 'solve_through_collapse': {'quick': 320, 'thorough': 2400},
-           'wrappers': {'quick': 1600, 'thorough': 16000}}
+           'wrappers': {'quick': 1600, 'thorough': 16000}, 'cost_faults': {'quick': 960, 'thorough': 9600}}
 MIN_EVENTS = {'quick': {'assert:c04': 15000, 'iterations': 1500, 'api_calls': 2000}}
 CASE_TIMEOUT = 120
 
@@ -74,12 +74,73 @@ def run_collapse(rng, obs):
     obs.notes = {'collapses': ncollapse[0], 'iterations': iterating[0], 'after_collapse': after[0]}
 
 
+class Fault(Exception):
+    pass
+
+
+def run_faults(rng, obs):
+    """a cost that raises once, in the middle of some Step: the exception reaches the caller, the aborted iteration is no iteration, and from the
+    next completed Step on the bookkeeping is exact again (the counter counts every call that was made, the raising one included)"""
+    from mystic.solvers import NelderMeadSimplexSolver, PowellDirectionalSolver, DifferentialEvolutionSolver, DifferentialEvolutionSolver2
+    from mystic.monitors import Monitor
+    from mystic.termination import ChangeOverGeneration
+    from .. import solverkit as K
+    kind = rng.choice(['nm', 'powell', 'de', 'de2'])
+    dim = rng.randint(1, 4)
+    spec = K.gen_cost(rng, dim, ['sphere', 'illquad', 'rosen', 'abs'])
+    raw = K.make_cost(spec)
+    probe = K.CostProbe(raw)
+    at = rng.randint(1, 60 if kind != 'powell' else 200)
+    armed = [True]
+    def hook(seq, x):
+        if armed[0] and seq + 1 == at:
+            armed[0] = False
+            raise Fault()
+    probe.hooks.append(hook)
+    s = {'nm': NelderMeadSimplexSolver, 'powell': PowellDirectionalSolver}.get(kind)
+    s = s(dim) if s else (DifferentialEvolutionSolver if kind == 'de' else DifferentialEvolutionSolver2)(dim, 6)
+    if kind in ('de', 'de2'): s.SetRandomInitialPoints([-2.0] * dim, [2.0] * dim)
+    else: s.SetInitialPoints([round(rng.uniform(-2, 2), 2) for _ in range(dim)])
+    s.SetEvaluationLimits(10 ** 6, 10 ** 8); s.SetTermination(ChangeOverGeneration(-1.0, 10 ** 6))
+    em, sm = Monitor(), Monitor()
+    s.SetEvaluationMonitor(em); s.SetGenerationMonitor(sm)
+    s.SetObjective(probe)
+    obs.desc = {'solver': kind, 'dim': dim, 'cost': spec, 'fault_at_call': at}
+    completed = 0; faulted = False; after = 0
+    cb = []
+    for i in range(rng.randint(6, 14)):
+        n0, c0 = probe.n, len(cb)
+        try:
+            s.Step(callback=lambda x: cb.append(1))
+        except Fault:
+            faulted = True
+            obs.event('steps_aborted_by_the_cost')
+            obs.check(int(s.evaluations) == probe.n or kind == 'de2', 'c04:evaluation counter equals the number of real cost calls', observed=int(s.evaluations), expected=probe.n, solver=kind,
+                      inf_returns=0, evalmon_kind='plain', after='a Step aborted by an exception raised in the cost')
+            continue
+        completed += 1
+        if faulted: after += 1
+        ctx = dict(solver=kind, after='Step %d (%s the aborted one)' % (i, 'after' if faulted else 'before'), fault_at_call=at)
+        if kind != 'de2' or not faulted:      # (DE2 evaluates a whole generation inside one map call and counts it afterwards: an aborted generation is not counted)
+            obs.check(int(s.evaluations) == probe.n, 'c04:evaluation counter equals the number of real cost calls', observed=int(s.evaluations), expected=probe.n, inf_returns=0, evalmon_kind='plain', **ctx)
+        eh = [K.fnum(e) for e in s.energy_history]
+        obs.check(bool(eh) and eh[-1] == K.fnum(s.bestEnergy), 'c04:last entry of the best-energy history is the reported best energy', last=eh[-1:], bestE=K.fnum(s.bestEnergy), **ctx)
+        obs.check(all(b <= a for a, b in zip(eh, eh[1:])), 'c04:best-energy history is non-increasing', history=eh[-6:], **ctx)
+        obs.check(len(cb) - c0 == 1, 'c04:callback invoked exactly once per iteration', observed=len(cb) - c0, step=i, collapses_so_far=0, **ctx)
+        obs.check(int(s.generations) == completed - 1, 'c04:generation counter equals the number of completed iterations', observed=int(s.generations), expected=completed - 1, powell=kind == 'powell', **ctx)
+    obs.event('iterations', completed); obs.event('api_calls', completed); obs.event('assert:c04', 5 * completed)
+    obs.nontrivial = faulted and after >= 2
+    obs.notes = {'completed': completed, 'faulted': faulted, 'after': after}
+
+
 def run_case(cls, idx, rng, obs):
     import warnings
     warnings.simplefilter('ignore')
     np.seterr(all='ignore')
     if cls == 'solve_through_collapse':
         return run_collapse(rng, obs)
+    if cls == 'cost_faults':
+        return run_faults(rng, obs)
     if cls == 'wrappers':          # the scipy-style one-liners with itermon= / evalmon= / callback= / args=: the same bookkeeping, reported through the wrapper
         from .c01 import run_wrapper
         return run_wrapper(rng, obs, focus='c04')
